@@ -684,6 +684,82 @@ func c12HeaderEdges(rng *rand.Rand) []byte {
 	return b.Bytes()
 }
 
+// c12Encoded builds a message whose header values are *encoded* (RFC 2047 words in display names and
+// unstructured fields, RFC 2231 extended parameters): what the value decodes to - NUL, CR, LF, quotes,
+// backslashes, braces, parentheses, 8-bit bytes in any mix - can be put into a value no raw header line
+// can carry, and it is the decoded value that ENVELOPE and BODYSTRUCTURE have to render.
+func c12Encoded(rng *rand.Rand) []byte {
+	hostile := []byte{0, 0, '\n', '\n', '\r', '"', '\\', '{', '}', '(', ')', ' ', '\t', 0x7f, 0xe9, 0xff, '%', '=', '?', '_', 'a', 'b', 'Z', '1'}
+	payload := func() []byte {
+		b := make([]byte, rng.Intn(12))
+		for i := range b {
+			b[i] = hostile[rng.Intn(len(hostile))]
+		}
+
+		return b
+	}
+	word := func() string { // RFC 2047
+		cs := []string{"utf-8", "UTF-8", "iso-8859-1", "us-ascii", "x-unknown"}[rng.Intn(5)]
+		p := payload()
+
+		if rng.Intn(2) == 0 {
+			return "=?" + cs + "?b?" + base64.StdEncoding.EncodeToString(p) + "?="
+		}
+
+		var q strings.Builder
+		for _, c := range p {
+			fmt.Fprintf(&q, "=%02X", c)
+		}
+
+		return "=?" + cs + "?q?" + q.String() + "?="
+	}
+	ext := func(name string) string { // RFC 2231
+		cs := []string{"utf-8", "UTF-8", "iso-8859-1", "", "x-unknown"}[rng.Intn(5)]
+
+		var q strings.Builder
+		for _, c := range payload() {
+			fmt.Fprintf(&q, "%%%02X", c)
+		}
+
+		if rng.Intn(4) == 0 { // continuation form
+			return name + "*0*=" + cs + "''" + q.String() + "; " + name + "*1*=%00%0A; " + name + "*2=\"tail\""
+		}
+
+		return name + "*=" + cs + "'" + []string{"", "en"}[rng.Intn(2)] + "'" + q.String()
+	}
+
+	var b bytes.Buffer
+
+	for _, h := range []string{"From", "To", "Cc", "Bcc", "Sender", "Reply-To"} {
+		if rng.Intn(2) == 0 {
+			switch rng.Intn(3) {
+			case 0:
+				fmt.Fprintf(&b, "%s: %s <u@example.com>\r\n", h, word())
+			case 1:
+				fmt.Fprintf(&b, "%s: %s %s <u@example.com>, \"q\" <v@example.com>\r\n", h, word(), word())
+			default:
+				fmt.Fprintf(&b, "%s: %s: %s <u@example.com>;\r\n", h, word(), word())
+			}
+		}
+	}
+
+	fmt.Fprintf(&b, "Subject: %s\r\nMessage-Id: <%s@x>\r\nIn-Reply-To: %s\r\nDate: Mon, 02 Jan 2006 15:04:05 +0000\r\n", word(), word(), word())
+
+	part := func() string {
+		return fmt.Sprintf("Content-Type: %s; %s; charset=utf-8\r\nContent-Disposition: %s; %s\r\nContent-Description: %s\r\nContent-Id: %s\r\nContent-Language: %s\r\nContent-Location: %s\r\n",
+			[]string{"text/plain", "application/octet-stream", "image/png"}[rng.Intn(3)], ext([]string{"name", "x-p", "charset"}[rng.Intn(3)]),
+			[]string{"attachment", "inline"}[rng.Intn(2)], ext([]string{"filename", "x-q"}[rng.Intn(2)]), word(), word(), word(), word())
+	}
+
+	if rng.Intn(2) == 0 {
+		b.WriteString(part() + "\r\nbody\r\n")
+	} else {
+		fmt.Fprintf(&b, "Content-Type: multipart/mixed; boundary=b; %s\r\n\r\n--b\r\n%s\r\none\r\n--b\r\n%s\r\ntwo\r\n--b--\r\n", ext("x-r"), part(), part())
+	}
+
+	return b.Bytes()
+}
+
 func c12Address(rng *rand.Rand) []byte {
 	toks := []string{"a@b.c", "<a@b.c>", "\"Q \\\" x\" <q@r.s>", "group:", ";", ",", " ", "(c)", "(c (n))", "=?utf-8?q?=C3=A9?=", "<", ">", "@", ".", "\"", "\\", "\r\n ", "[1.2.3.4]", "user@[ipv6:::1]", "a..b@c", "\x00", "\xe9", ":", "undisclosed-recipients:;", "<@route:a@b>", "very.long." + strings.Repeat("x", 200) + "@d"}
 
@@ -823,7 +899,7 @@ func compareStructure(n *pNode, p *mimePart, path string) error {
 // ---- the check ---------------------------------------------------------------------------------------
 
 func runC12(r *ev.Run) {
-	r.SetRule("inputs: generated MIME trees (structure known by construction), mutations of them (bit flips, cuts, duplications, inserted tokens, truncation, LF / bare CR line ends, NUL and list-syntax bytes), token soup of MIME/header fragments, header-field edge cases (blanks after the colon, empty or blank first line, CRLF/LF/CR ends, folds, blank continuation lines for every field ENVELOPE and BODYSTRUCTURE read), random bytes, deep nesting in doubling series (message/rfc822 to 2000 / 4000 levels, multiparts to 1500 / 20000 levels), very wide multiparts, huge header lines, and address-list soup for rfc5322.ParseAddressList. A child process runs imap.NewParsedMessage, rfc822.Parse/Walk/Part (incl. part paths that do not exist) on each input and logs BEGIN/RESULT lines; the parent decides: the child must not die or hang on any input; ENVELOPE / BODY / BODYSTRUCTURE must read as strict parenthesised lists (balanced, quoted strings without CR/LF/NUL and with proper escapes, literals of the announced length, single spaces) of the ENVELOPE (10 fields, address 4-tuples) and body shapes; every walked part must lie inside the message and inside its parent's body; for generated messages the structure must equal the tree (types, parameters, sizes, line counts, nesting); the CPU time per input (reported by the child) may not more than triple when the nesting depth doubles. distinct = distinct (input kind, outcome, structure shape class) tuples")
+	r.SetRule("inputs: generated MIME trees (structure known by construction), mutations of them (bit flips, cuts, duplications, inserted tokens, truncation, LF / bare CR line ends, NUL and list-syntax bytes), token soup of MIME/header fragments, encoded header values (RFC 2047 words and RFC 2231 extended parameters that decode to NUL, CR, LF, quotes, backslashes, braces, parentheses, 8-bit bytes), header-field edge cases (blanks after the colon, empty or blank first line, CRLF/LF/CR ends, folds, blank continuation lines for every field ENVELOPE and BODYSTRUCTURE read), random bytes, deep nesting in doubling series (message/rfc822 to 2000 / 4000 levels, multiparts to 1500 / 20000 levels), very wide multiparts, huge header lines, and address-list soup for rfc5322.ParseAddressList. A child process runs imap.NewParsedMessage, rfc822.Parse/Walk/Part (incl. part paths that do not exist) on each input and logs BEGIN/RESULT lines; the parent decides: the child must not die or hang on any input; ENVELOPE / BODY / BODYSTRUCTURE must read as strict parenthesised lists (balanced, quoted strings without CR/LF/NUL and with proper escapes, literals of the announced length, single spaces) of the ENVELOPE (10 fields, address 4-tuples) and body shapes; every walked part must lie inside the message and inside its parent's body; for generated messages the structure must equal the tree (types, parameters, sizes, line counts, nesting); the CPU time per input (reported by the child) may not more than triple when the nesting depth doubles. distinct = distinct (input kind, outcome, structure shape class) tuples")
 	r.Assume("a non-terminating parse is reported only after the single input, re-run alone in a fresh process, still has not finished after 60 s (inputs are below 3 MB); an error return from NewParsedMessage is a legitimate outcome for malformed input")
 
 	rng := r.Rand("inputs")
@@ -860,6 +936,10 @@ func runC12(r *ev.Run) {
 
 	for i := 0; i < r.Pick(800, 12000); i++ {
 		add("hdredge", c12HeaderEdges(rng), nil)
+	}
+
+	for i := 0; i < r.Pick(600, 8000); i++ {
+		add("encoded", c12Encoded(rng), nil)
 	}
 
 	for i := 0; i < nRand; i++ {
